@@ -84,6 +84,18 @@ def variants(base):
     v["libs"] = v["libs"] + [{"name": "l-1", "defs": [{"name": "x", "ports": [], "insts": [], "nets": []}]},
                              {"name": "l+1", "defs": [{"name": "x", "ports": [], "insts": [], "nets": []}]}]
     out.append(("sanitised-twins", v))
+    # twelve siblings whose names agree in their first 255 characters (a 16-bit register deep inside a flattened
+    # hierarchy): the counter of the generated suffix passes from 9 to 10
+    v = copy.deepcopy(base)
+    if v.get("top"):
+        for lib in v["libs"]:
+            for d in lib["defs"]:
+                if d["name"] == v["top"][1] and d.get("insts"):
+                    ref = d["insts"][0]["ref"]
+                    d["insts"] = d["insts"] + [{"name": "i" * 255 + "_%d" % k, "ref": ref} for k in range(12)]
+                    d["nets"] = (d.get("nets") or []) + [{"name": "n" * 255 + "[%d]x" % k, "bits": [[]]} for k in range(12)]
+                    d["ports"] = d["ports"] + [fdesigns.port("p" * 255 + "_%d" % k, 1, "in") for k in range(12)]
+        out.append(("twelve-long-siblings", v))
     # a library without any cell (created ahead of use / emptied)
     v = copy.deepcopy(base)
     v["libs"] = [{"name": "empty_first", "defs": []}] + v["libs"] + [{"name": "empty_last", "defs": []}]
